@@ -149,7 +149,7 @@ PROPS = {
         "theorems": ["C05_never_signalled_twice", "C05_no_call_left_hanging", "C05_rejected_promptly", "C05_invariants_reachable",
                      "C05_the_client_paths_obey_the_discipline", "C05_no_call_completes_twice_under_any_interleaving",
                      "C05_no_call_is_left_in_the_table_of_a_client_that_shut_down", "C05_outcomes_fit_their_cause",
-                     "C05_success_has_its_own_answer", "C05_oneway_success_only_after_the_write"],
+                     "C05_success_has_its_own_answer", "C05_oneway_success_only_after_the_write", "C05_oneway_success_was_written"],
         "assumptions": ["sequentially consistent interleavings at the granularity of the client's own critical sections (client.mutex, one "
                         "Conn.Write per frame, the single reader goroutine); weak-memory effects are not modelled",
                         "Done channels have room for every call that shares them (the documented obligation of Go)",
